@@ -5,7 +5,7 @@ import subprocess, re, glob, os
 V = os.path.dirname(os.path.dirname(os.path.abspath(__file__)))
 BASE = "659c5ec"
 # property attribution by subject keyword (first match wins)
-RULES = [("hashmap", "C17"), ("promotions to operands", "C01"), ("operand of unary +", "C01"), ("bit-field operands by their width", "C01"), ("enumerated type are converted", "C01"),
+RULES = [("evaluates binary operands left to right", "C12"), ("hashmap", "C17"), ("promotions to operands", "C01"), ("operand of unary +", "C01"), ("bit-field operands by their width", "C01"), ("enumerated type are converted", "C01"),
  ("constant expressions in the type", "C07"), ("negative array designator", "C13"), ("-E separates", "C19"), ("-E prints", "C19"),
  ("long double to short", "C02"), ("unsigned long and floating", "C02"), ("NaN is nonzero", "C02"), ("floating constants once", "C02"), ("postfix ++/-- on floating", "C02"),
  ("va_arg(ap, long double)", "C06"), ("x87 register of a discarded", "C20"), ("caller's buffer in RAX", "C20"),
